@@ -734,7 +734,8 @@ class World:
                 kw['cache_path'] = self.cdir(op.get('c', 0))
             outs = []
             for i in range(2):
-                pc.parser_cache.clear()
+                if i == 1 or not op.get('inproc'):
+                    self._module_restore(self._base_state)       # a new process
                 proc.ctx.src_opened = False
                 try:
                     outs.append(('ok', g.parse(**kw), None))
@@ -785,12 +786,16 @@ class World:
             self._check_parse(proc, ctx, first[:2])
             if self.violation is None:
                 self._check_parse(proc, ctx, second[:2])
-            if self.violation is None and first[0] == 'ok' and second[0] == 'ok':
-                self.count('probe.repair_checked')
+            if self.violation is None and first[0] == 'ok' and second[0] == 'ok' \
+                    and not (op.get('inproc') and not first[2]):
+                # (in-process variant: only meaningful if the first parse really missed and had to save)
+                self.count('probe.repair_checked_inproc' if op.get('inproc') else 'probe.repair_checked')
                 if second[2]:
                     self._violate(ctx, 'not-repaired', 'not-repaired',
-                                  'fault-free: a new process parsed and saved the file, the next new process '
-                                  'still was not served from the disk cache')
+                                  'fault-free: a %s parsed and saved the file, the next new process '
+                                  'still was not served from the disk cache'
+                                  % ('process that had been running through the faults' if op.get('inproc')
+                                     else 'new process'))
 
     def _record_observed(self, ctx):
         """An implementation may associate what it read with the latest mtime it observed itself
@@ -1087,9 +1092,10 @@ class World:
                 if n.is_dir:
                     stack.extend(n.children.values())
             self.now = latest + 5.0
-            for p in self.procs:
-                if p.pid not in self.inflight:
-                    self._restart(p)
+            if not op.get('keep_procs'):
+                for p in self.procs:
+                    if p.pid not in self.inflight:
+                        self._restart(p)
         else:
             raise HarnessError('unknown env op %r' % (k,))
 
